@@ -22,6 +22,7 @@ PID = "C05"
 PROP_MODULES = ["UsualProofs.Props.C05"]
 EXTRA_MODULES = ["UsualProofs.C05.Vectors"]
 GEN_REL = "lean/Usual/Gen/C05Tables.lean"
+MAX_REPORTED = 4
 
 CRYPTO_SRCS = ["repo:usual/crypto/md5.c", "repo:usual/crypto/sha1.c", "repo:usual/crypto/sha256.c",
                "repo:usual/crypto/sha512.c", "repo:usual/crypto/sha3.c", "repo:usual/crypto/hmac.c",
@@ -351,8 +352,13 @@ def par_compare(ck, hcmd, dcmd, cases, label, shard=None, timeout=1800):
                 ck.distinct(tuple(c))
             ck.count(len(sh))
             ck.cov["op_lines"] = ck.cov.get("op_lines", 0) + nl
+        elif len([v for v in ck.violations if v["kind"] == "obs"]) < MAX_REPORTED:
+            # shrink + classify + write the replay (a few are enough; the rest is only counted)
+            nfail += ck.compare_cases(hcmd, dcmd, sh, label=label, timeout=timeout, max_failures=2)
         else:
-            nfail += ck.compare_cases(hcmd, dcmd, sh, label=label, timeout=timeout)
+            nfail += 1
+            ck.count(len(sh))
+            ck.cov["failing_shards_not_minimised"] = ck.cov.get("failing_shards_not_minimised", 0) + 1
     hist = ck.cov.setdefault("cases_by_stream", {})
     hist[label] = hist.get(label, 0) + len(cases)
     return nfail
